@@ -76,6 +76,13 @@ verdict observables (the statement): the lenient constructor returns; number of 
            succeeds (ChangelogCreateError = "cannot be formatted", any other exception is a
            violation) re-parsing gives the same (package, version, distributions, urgency, changes,
            author, date) per block and str() again gives the identical text.
+add_change: WHERE the line is inserted among the block's change lines is not stated by C04 / C15: the
+           spec action is nondeterministic over the position (TLC explores all of them; the trace module
+           accepts the position the code took; the history replay accepts any of TLC's position variants).
+           Verdicts there: the normal form of whatever results, blocks of parse(str(cl)) = blocks the object
+           exposes, the added line present exactly once with every other change line intact (added_once).
+           A position other than today's rule ("before the trailing blank lines") is drift only; the
+           quiet-expected mutant c15-add-change-appends must leave the check at exit 0.
 diagnostic (spec drift, never an alarm): warning predictions, block / change / trailing counts, block
            contents, formattability.
 unspecified: author / date assigned to a block that has no trailer because the input ended inside it
@@ -354,7 +361,7 @@ def run_edit(rec):
     for op, arg, how in rec["calls"]:
         err = cc.apply_edit(cl, op, arg, how)
         if err:
-            return "%s(%r) raised %s" % (op, arg, err[4:])
+            return ("%s(%r) raised %s" % (op, arg, err[4:])) if err.startswith("EXC:") else err[4:]
     s, err = cc.fmt(cl)
     if s is None:
         if err != "unformattable":
@@ -566,8 +573,6 @@ def run(ctx):
     ctx.extra["traces"] = {"parse": ntr, "edit": len(traces) - ntr,
                            "events": sum(len(t["lines"]) if t["kind"] == "parse" else len(t["ops"]) for t in traces),
                            "rejected": len(viol), "drifting": len(drift)}
-    if len(drift) * 20 > len(traces) and not viol and not ctx.violations:
-        raise core.MachineryError("%d of %d traces drift from the specification in diagnostic observables" % (len(drift), len(traces)))
     for i in drift[:10]:
         t = traces[i - 1]
         at = info.get(i, 0)
